@@ -178,6 +178,8 @@ SCRIPTS = [
     ["append", "append2", "delete+append", "age", "gc", "delsnap", "age", "gc"],
     # transactions open for hours (their files AND markers two hours old, far below the 24 h abandonment timeout) across collections
     ["append", "opentx", "age", "gc", "opentx", "age", "gc", "append", "gc"],
+    # fresh garbage: the default-sized grace period leaves it alone, grace 0 removes it
+    ["append", "append2", "delete", "expire+", "gc1h", "gc0", "append", "delete", "expire+", "gc0"],
 ]
 
 
@@ -229,8 +231,8 @@ def _history(ctx, rep, rng, location, make_store, chdir=None, s3env=None, script
                     _age_all(None, 7200, s3env.fake, store.prefix + "/")
                 else:
                     _age_all(store.root, 7200)
-            elif op == "gc":
-                grace = rng.choice([0, 3_600_000, 10**12])
+            elif op in ("gc", "gc0", "gc1h"):
+                grace = rng.choice([0, 3_600_000, 10**12]) if op == "gc" else (0 if op == "gc0" else 3_600_000)
                 before = set(store.list())
                 reach, md = _all_retained_reachable(store)
                 inflight = set()
@@ -254,9 +256,14 @@ def _history(ctx, rep, rng, location, make_store, chdir=None, s3env=None, script
                 # liveness: unreferenced data / manifest files older than grace are removed
                 for f in before:
                     if (f.startswith("data/") or f.startswith("metadata/manifests/")) and f not in reach and f not in inflight \
-                            and ages[f] > grace + 2000 and f in after and not _marker_protected(store, f):
+                            and ages[f] > grace + (2000 if grace > 0 else 20) and f in after and not _marker_protected(store, f):
                         rep.violate("C05:old-orphan-not-collected", f"location {location!r}: {f} unreferenced, older than grace, still there",
                                     {"kind": "history", "location": location, "trace": trace, "grace": grace})
+                # …and a file YOUNGER than the grace period is left alone (the grace period is what protects what a writer is producing)
+                for f in before:
+                    if (f.startswith("data/") or f.startswith("metadata/manifests/")) and f not in after and 0 <= ages[f] < grace - 10_000:
+                        rep.violate("C05:young-file-collected-before-its-grace-period", f"location {location!r}: {f} is {ages[f] / 1000:.0f} s old, grace "
+                                    f"{grace / 1000:.0f} s, and was deleted", {"kind": "history", "location": location, "trace": trace, "grace": grace})
                 # every retained snapshot still readable
                 try:
                     _all_retained_reachable(store)
@@ -291,8 +298,9 @@ def _end_to_end(ctx, rep):
     rng = ctx.rng("e2e")
     base = scratch_dir("c05-")
     cwd = os.getcwd()
-    n = ctx.budget(4, 40)
-    spellings = ["abs", "abs/", "rel", "./rel", "rel/", "d", "data", "m", "metadata", "symlink", "s3", "s3nested"]
+    n = ctx.budget(5, 40)
+    spellings = ["abs", "abs/", "rel", "./rel", "rel/", "d", "data", "m", "metadata", "symlink", "s3", "s3nested", "s3:data", "s3:metadata", "s3:d",
+                 "s3tz"]
     try:
         for round_ in range(n):
             for sp in spellings:
@@ -300,9 +308,28 @@ def _end_to_end(ctx, rep):
                 os.makedirs(work)
                 os.chdir(work)
                 try:
-                    if sp in ("s3", "s3nested"):
-                        with fakes3.S3Env() as env, fakes3.NoSleep():
-                            loc = "wh/t" if sp == "s3" else "data/metadata/t"
+                    if sp.startswith("s3"):
+                        import contextlib
+                        import time as _t
+
+                        @contextlib.contextmanager
+                        def tz(name):
+                            old_tz = os.environ.get("TZ")
+                            if name:
+                                os.environ["TZ"] = name
+                                _t.tzset()
+                            try:
+                                yield
+                            finally:
+                                if name:
+                                    if old_tz is None:
+                                        os.environ.pop("TZ", None)
+                                    else:
+                                        os.environ["TZ"] = old_tz
+                                    _t.tzset()
+                        # "s3tz": the process lives nine hours east of UTC (object ages are computed from the store's UTC LastModified)
+                        with fakes3.S3Env() as env, fakes3.NoSleep(), tz("Asia/Tokyo" if sp == "s3tz" else None):
+                            loc = {"s3": "wh/t", "s3nested": "data/metadata/t", "s3tz": "wh/t"}.get(sp) or sp.split(":")[1]
                             _history(ctx, rep, rng, loc, lambda: reader.S3Store(env.fake, loc), s3env=env,
                                      script=SCRIPTS[round_] if round_ < len(SCRIPTS) else None)
                         continue
